@@ -26,7 +26,7 @@ from .. import gridutil as gu
 from ..fmutil import T, err_class, fm
 from finam.data.tools import Mask, from_compressed, prepare, to_compressed
 
-MODULES = ["Index", "IndexLemmas", "Grid", "Canonical", "Mask", "MaskLemmas"]
+MODULES = ["Index", "IndexLemmas", "Grid", "GridLemmas", "Canonical", "CanonicalLemmas", "Mask", "MaskLemmas", "Props.C15"]
 GEN_OBLIGATIONS = ["mask_enum"]
 UNITS = fm.UNITS
 
@@ -430,8 +430,12 @@ def all_accept_cases():
             for lc in lay:
                 specs.append((gu.make_spec("uniform", dims, ls[0], ls[1], ls[2], loc),
                               gu.make_spec("uniform", dims, lc[0], lc[1], lc[2], loc)))
-    for prod, cons in specs:
+    for n, (prod, cons) in enumerate(specs):
+        # every layout pair with both grids present; the grid-less / unstructured variants do not depend on the
+        # consumer layout much, so they take every 25th pair
         for grids in ("both", "cons-none", "prod-none", "none", "unstructured"):
+            if grids != "both" and n % 25:
+                continue
             for pm in MASK_KINDS:
                 for cm in MASK_KINDS:
                     for via in ("accepts", "link"):
@@ -697,10 +701,10 @@ def run(ctx, res):
         accepts = list(all_accept_cases())
         res.exhaustive = True
     else:
-        rts = [gen_rt_case(ctx.rng) for _ in range(1500)]
+        rts = [gen_rt_case(ctx.rng) for _ in range(4000)]
         accepts = []
-    preps = [gen_prep_case(ctx.rng) for _ in range(ctx.n(800, 8000))]
-    accepts += [gen_accept_case(ctx.rng) for _ in range(ctx.n(1500, 5000))]
+    preps = [gen_prep_case(ctx.rng) for _ in range(ctx.n(2000, 8000))]
+    accepts += [gen_accept_case(ctx.rng) for _ in range(ctx.n(4000, 5000))]
     check_cases(corpus() + malformed_rt_cases() + rts + preps + accepts, res)
 
 
